@@ -34,12 +34,15 @@ Proof.
   replace (2 + length bits)%nat with (length (base :: size :: bits)) by reflexivity. rewrite firstn_all. auto.
 Qed.
 
-(* REFUTED for position reports (known finding mirror.position-truncated): the mirror carries three of
-   the five payload bytes *)
-Lemma mirror_position_refuted :
-  mirror_of MSG_BM_POSITION [52; 18; 0; 120; 86] = Some (MSG_BM_MIRROR_POSITION, [52; 18; 0]) /\
-  mirror_spec MSG_BM_POSITION [52; 18; 0; 120; 86] = Some (MSG_BM_MIRROR_POSITION, [52; 18; 0; 120; 86]).
-Proof. vm_compute. split; reflexivity. Qed.
+(* position reports: the mirror carries the five payload bytes of the report (since /repo fix of
+   bidib_send_msg_bm_mirror_position; before, three of them) *)
+Lemma mirror_position data : (5 <= length data)%nat ->
+  mirror_of MSG_BM_POSITION data = mirror_spec MSG_BM_POSITION data /\
+  mirror_spec MSG_BM_POSITION data = Some (MSG_BM_MIRROR_POSITION, firstn 5 data).
+Proof.
+  intros H. split; [|reflexivity].
+  destruct data as [|a [|b [|c [|d [|e r]]]]]; cbn [length] in H; try lia. reflexivity.
+Qed.
 
 (* no mirror for any other message type, and none for boards without the feature *)
 Lemma mirror_only_four ty data : mirror_of ty data <> None ->
